@@ -60,6 +60,19 @@ static inline result_t DF_write(const struct DF* f, char sep, size_t offset, str
   for (size_t k = 0; k < WCAP; k++) { if (k < n) SymbolString_push_back(data, g_wbytes[k]); }
   return RESULT_OK;
 }
+/* field decoder of the definition (units fields / number): stub recording which stored part it is applied to, at which data offset */
+struct oss { long written; };
+const SymbolString* g_read_part[2]; size_t g_read_off[2]; long g_read_index[2]; _Bool g_read_lead[2]; unsigned g_read_calls; int g_read_result[2]; size_t g_master_fields;
+static inline void env_rawdata(struct oss* o) { o->written = o->written + 1; }
+static inline long env_tellp(const struct oss* o) { return o->written; }
+static inline result_t DF_read(const struct DF* f, const SymbolString* data, size_t offset, _Bool lead, const char* name, long index, unsigned fmt, long outIndex, struct oss* out) {
+  unsigned k = g_read_calls < 2 ? g_read_calls : 0;
+  __CPROVER_assert(g_read_calls < 2, "[C09] each stored part is decoded at most once");
+  g_read_part[k] = data; g_read_off[k] = offset; g_read_index[k] = index; g_read_lead[k] = lead; g_read_calls = g_read_calls + 1;
+  if (g_read_result[k] == RESULT_OK) out->written = out->written + 1;
+  return (result_t)g_read_result[k];
+}
+static inline size_t DF_getCount(const struct DF* f, PartType part, const char* name) { return g_master_fields; }
 #include "gen_protos.h"
 #include "gen_funcs.inc"
 
@@ -220,4 +233,28 @@ void h_chain_store(void) {
       CANARY("chain incomplete");
     }
   }
+}
+
+/* decoding the stored data: the master fields are read from the stored master part behind the id (where prepareMasterPart put them), the slave
+   fields from the stored slave part at data offset 0 (where prepareSlave / the received answer has them) */
+void h_decode(void) {
+  struct Message m = nondet_Message(); struct DF df = nondet_DF(); struct oss out; out.written = 0; m.m_data = &df;
+  PartType part = nondet_bool() ? pt_any : (nondet_bool() ? pt_masterData : pt_slaveData); long fieldIndex = nondet_long(); _Bool lead = nondet_bool(); unsigned fmt = nondet_uint();
+  g_read_calls = 0; g_read_result[0] = nondet_int(); g_read_result[1] = nondet_int(); g_master_fields = nondet_size();
+  __CPROVER_assume(m.m_id.n >= 2 && m.m_id.n <= ID_MAX && fieldIndex >= -1 && fieldIndex < 20 && g_master_fields <= 10 && (fmt & ~(unsigned)0x3ff) == 0);
+  for (int k = 0; k < 2; k++) __CPROVER_assume(g_read_result[k] == RESULT_OK || g_read_result[k] == RESULT_EMPTY || (g_read_result[k] < 0 && g_read_result[k] >= -20));
+  result_t r = Message_decodeLastData(&m, part, lead, NULL, fieldIndex, fmt, &out);
+  unsigned k = 0;
+  if (part == pt_any || part == pt_masterData) {
+    __CPROVER_assert(g_read_calls >= 1 && g_read_part[0] == &m.m_lastMasterData && g_read_off[0] == m.m_id.n - 2 && g_read_index[0] == fieldIndex, "[C09] the master fields are decoded from the stored master part behind the id bytes");
+    k = 1;
+    if (g_read_result[0] < 0) { __CPROVER_assert(r == g_read_result[0] && g_read_calls == 1, "[C09] a decoding error of the master part is returned"); return; }
+  }
+  _Bool slave_wanted = part != pt_masterData && !(fieldIndex >= 0 && (size_t)fieldIndex < g_master_fields);
+  if (slave_wanted) {
+    __CPROVER_assert(g_read_calls == k + 1 && g_read_part[k] == &m.m_lastSlaveData && g_read_off[k] == 0, "[C09] the slave fields are decoded from the stored slave part at data offset 0");
+    __CPROVER_assert(g_read_index[k] == (fieldIndex >= 0 ? fieldIndex - (long)g_master_fields : fieldIndex), "[C09] a field index counts the master fields first");
+    CANARY("slave part decoded");
+  } else { __CPROVER_assert(g_read_calls == k, "[C09] the slave part is not decoded when only master data / a master field is asked for"); }
+  if (part == pt_any && fieldIndex < 0 && g_read_result[0] == RESULT_OK && g_read_result[1] == RESULT_OK) { __CPROVER_assert(r == RESULT_OK, "[C09] both parts decoded: success"); CANARY("both parts"); }
 }
